@@ -37,7 +37,7 @@ FLOOR = 1e-11  # outcomes with probability below this are unreachable for the sc
 
 def budget(tier):
     if tier == 'quick':
-        return {'runs': 4000, 'wall_cap_s': 100, 'per_run_timeout_s': 60, 'shrink_tests': 400}
+        return {'runs': 6000, 'wall_cap_s': 100, 'per_run_timeout_s': 60, 'shrink_tests': 400}
     return {'runs': 150000, 'wall_cap_s': 1500, 'per_run_timeout_s': 120, 'shrink_tests': 800}
 
 
@@ -439,7 +439,11 @@ class Sim:
             if np.abs(self.psi - pre).max() > 0:
                 raise Violation('after_fault', 'measure_quantum_vector', 'an interrupted measurement modified the caller state in place')
             return
+        if not (isinstance(val, tuple) and len(val) == 3):
+            raise Violation('born', 'measure_quantum_vector', f'expected (bitstr, prob, state), got {type(val).__name__}')
         bitstr, prob, post = val
+        if not (isinstance(bitstr, (list, tuple, np.ndarray)) and isinstance(prob, np.ndarray) and isinstance(post, np.ndarray)):
+            raise Violation('born', 'measure_quantum_vector', f'expected (list, ndarray, ndarray), got ({type(bitstr).__name__}, {type(prob).__name__}, {type(post).__name__})')
         if np.abs(self.psi - pre).max() > 0:
             raise Violation('projection', 'measure_quantum_vector', f'the caller-owned input state was modified in place by measuring S={S} (a second measurement of the same input sees a different state)')
         self.log.add('measure', S, [int(b) for b in bitstr], np.round(np.asarray(prob, dtype=np.float64), 9) + 0.0)
@@ -762,7 +766,8 @@ class Sim:
                 raise Violation('bookkeeping', 'MeasureGate', f'recorded bit string {list(g.bitstr)} of the measure gate on {S} is not the outcome {bs} obtained at that point of the circuit')
             self.checked += 1
             self.bump('measurements_checked')
-        out = np.asarray(out)
+        if not isinstance(out, np.ndarray):
+            raise Violation('bookkeeping', 'Circuit.apply_state', f'apply_state returned {type(out).__name__}, not an ndarray')
         if out.shape != psi.shape or np.abs(out - psi).max() > TOL:
             raise Violation('bookkeeping', 'Circuit.apply_state', f'final state differs from the model run with the outcomes obtained at each measure gate (max dev {np.abs(out - psi).max() if out.shape == psi.shape else "shape"}): classical control / projection did not use the measurement made at that point of the circuit')
         self.log.add('run', w, [outcomes[id(x[2])] for x in self.desc if x[0] == 'measure'], np.round(out, 9) + 0.0)
